@@ -67,6 +67,11 @@ func runStateWorkload(ctx *core.Ctx, exec func(*core.Ctx, *core.Case), kinds his
 	for i := int64(0); i < n; i++ {
 		in, base, has := startCase(r)
 		cs := &core.Case{Check: "history", Input: core.S(in), Base: core.S(base), HasBase: has, Ops: genHistory(r, maxLen, kinds)}
+		if r.IntN(25) == 0 {
+			// the tenth setter: parameters that come from a URL of another parser configuration
+			k := r.IntN(len(cs.Ops) + 1)
+			cs.Ops = append(cs.Ops[:k:k], append([]core.Op{sOp("setsp-foreign", gen.Pick(r, []string{"q=\"x\"&r=1", "a=<b>&c", "k=`{}`", "a=b c&d=' '", "x"}))}, cs.Ops[k:]...)...)
+		}
 		ctx.Begin(cs)
 		exec(ctx, cs)
 	}
